@@ -121,7 +121,7 @@ class Scenario:
 NAMES = ['a.log', 'bb.log', 'quite-long-name.log', 'x', '日本語.log', 'café.log', 'm.log']
 
 
-def text_scenario(rng, work, k, nfiles=None, names=None, nonascii=True, window=False):
+def text_scenario(rng, work, k, nfiles=None, names=None, nonascii=True, window=False, steps=(0, 1, 1, 2, 7, 3600)):
     d = os.path.join(work, 'sc%d' % k)
     shutil.rmtree(d, ignore_errors=True)
     os.makedirs(os.path.join(d, 'sub'))
@@ -131,7 +131,7 @@ def text_scenario(rng, work, k, nfiles=None, names=None, nonascii=True, window=F
     files, srcs = [], []
     base = 1672531200 + rng.below(100000)
     for i, nm in enumerate(names):
-        log = e2e.gen_log(rng, rng.range(2, 7), start=base + rng.below(5), steps=(0, 1, 1, 2, 7, 3600),
+        log = e2e.gen_log(rng, rng.range(2, 7), start=base + rng.below(5) + (40000 if min(steps) < 0 else 0), steps=steps,
                           final_newline=not rng.chance(1, 3), weird=rng.chance(1, 2), body_min=6, cont_prob=(1, 2))
         rel = os.path.join('sub', nm) if rng.chance(1, 2) else nm
         open(os.path.join(d, rel), 'wb').write(log.data)
